@@ -406,6 +406,10 @@ def _poscar(model, rep, mod, ci):
         if isinstance(n, ast.If) and unparse(n.test) == 'EMPTY_SUPER':
             empt = n
     if empt is None:
+        if 'EMPTY_SUPER' in [a.arg for a in fn.args.args]:
+            rep.ob('empty-before-read', mod, fn, 'POSCAR_occ has an `if EMPTY_SUPER:` emptying pass', False,
+                   'the EMPTY_SUPER option no longer empties the cell: entries are read on top of the previous occupation', engine='flow')
+            return
         raise AnalysisError('Supercell.POSCAR_occ: EMPTY_SUPER block not found')
     # the emptying loop: for n in range(self.N * self.size): self.setocc(n, -1)
     full = False
@@ -430,3 +434,24 @@ def _poscar(model, rep, mod, ci):
     ok = top.end_lineno < first and top in fn.body
     rep.ob('empty-before-read', mod, empt, 'emptying block (line %d) precedes the first placement (line %d)' % (empt.lineno, first),
            ok, '' if ok else 'entries are placed before the cell is emptied', engine='flow')
+
+
+SC = 'onsager/supercell.py'
+BREAKERS = [
+    (SC, "        if c < -1 or c >= self.Nchem:", "        if c < -2 or c > self.crys.Nchem:", 'guard-upper-is-extent'),
+    (SC, "        if c < -1 or c >= self.Nchem:", "        if c < -1 or c > self.Nchem:", 'guard-upper-is-extent'),
+    (SC, "        if c < -1 or c >= self.Nchem:", "        if c < -2 or c >= self.Nchem:", 'guard-lower-is-sentinel'),
+    (SC, "        for i in [n * self.N + i for n in range(self.size) for i in indlist]:\n            self.setocc(i, ci[0])",
+     "        for i in [n * self.N + i for n in range(self.size) for i in indlist]:\n            self.occ[i] = ci[0]", 'sole-writers'),
+    (SC, "    __copyattr__ = ('lattice', 'N', 'chemistry', 'size', 'invsuper',\n                    'Wyckofflist', 'Wyckoffchem', 'occ', 'chemorder')\n    __eqattr__ = ('atomindices', 'indexatom', 'translist', 'transdict', 'pos', 'G')",
+     "    __copyattr__ = ('lattice', 'N', 'chemistry', 'size', 'invsuper',\n                    'Wyckofflist', 'Wyckoffchem', 'chemorder')\n    __eqattr__ = ('atomindices', 'indexatom', 'translist', 'transdict', 'pos', 'G', 'occ')", 'copy-parity'),
+    (SC, "            if corig >= 0:\n                # remove from chemorder list (if not vacancy)\n                co = self.chemorder[corig]\n                co.pop(co.index(ind))\n", "", 'paired-update'),
+    (SC, "        self.chemorder = [[indexmap[ind] for ind in clist] for clist in self.chemorder]\n        return self", "        return self", 'paired-update'),
+    (SC, "        if not self.__sane__():\n            self.chemorder = oldorder\n            raise", "        if not self.__sane__():\n            raise", 'paired-update'),
+    (SC, "        if EMPTY_SUPER:\n            for n in range(self.N * self.size):\n                self.setocc(n, -1)\n", "", None),
+]
+NEUTRALS = [
+    (SC, "        if c < -1 or c >= self.Nchem:", "        if c >= self.Nchem or c < -1:"),
+    (SC, "        if c < -1 or c >= self.Nchem:", "        if not (-1 <= c < self.Nchem):"),
+    (SC, "                co.pop(co.index(ind))", "                co.remove(ind)"),
+]
